@@ -19,15 +19,88 @@ pub const PROP: PropDef = PropDef {
 // (a) generator: builds the JSON value and, in parallel, the Response the parser must produce.
 
 fn opt3(label: &'static str) -> Option<String> {
-    match choose(label, 3) {
+    match choose(label, 4) {
         0 => None,
         1 => Some(String::new()),
-        _ => Some("v-x".into()),
+        2 => Some("v-x".into()),
+        // characters whose JSON spelling needs (or allows) escapes
+        _ => Some("q\"b\\s/\u{e9}\u{1}\n\u{1d11e}".into()),
     }
 }
 
+/// Re-spell the string literals of a JSON text without changing its meaning:
+/// 1 = every character of every string *value* as a \uXXXX escape, 2 = keys too,
+/// 3 = only the first character of every value, 4 = `/` spelled `\/` everywhere.
+fn respell(json_text: &[u8], mode: usize) -> Vec<u8> {
+    if mode == 0 {
+        return json_text.to_vec();
+    }
+    let text = std::str::from_utf8(json_text).expect("serde_json output is UTF-8");
+    let chars: Vec<char> = text.chars().collect();
+    let mut out = String::new();
+    let mut i = 0;
+    while i < chars.len() {
+        if chars[i] != '"' {
+            out.push(chars[i]);
+            i += 1;
+            continue;
+        }
+        // a string literal: find its end
+        let mut j = i + 1;
+        while chars[j] != '"' {
+            if chars[j] == '\\' {
+                j += 1;
+            }
+            j += 1;
+        }
+        let is_key = chars[j + 1..].iter().find(|c| !c.is_whitespace()) == Some(&':');
+        let body: &[char] = &chars[i + 1..j];
+        out.push('"');
+        let esc = |c: char, out: &mut String| {
+            let mut buf = [0u16; 2];
+            for u in c.encode_utf16(&mut buf) {
+                out.push_str(&format!("\\u{:04x}", u));
+            }
+        };
+        let mut k = 0;
+        let mut first = true;
+        while k < body.len() {
+            let c = body[k];
+            if c == '\\' {
+                // existing escape: keep as is (\uXXXX is 6 chars, others 2)
+                let len = if body[k + 1] == 'u' { 6 } else { 2 };
+                for x in &body[k..k + len] {
+                    out.push(*x);
+                }
+                k += len;
+                first = false;
+                continue;
+            }
+            let do_esc = match mode {
+                1 => !is_key,
+                2 => true,
+                3 => !is_key && first,
+                _ => false,
+            };
+            if do_esc {
+                esc(c, &mut out);
+            } else if mode == 4 && c == '/' {
+                out.push_str("\\/");
+            } else {
+                out.push(c);
+            }
+            first = false;
+            k += 1;
+        }
+        out.push('"');
+        i = j + 1;
+    }
+    out.into_bytes()
+}
+
 fn status_pair(label: &'static str) -> (&'static str, OmahaStatus) {
-    match choose(label, 6) {
+    match choose(label, 7) {
+        6 => ("error-\"quota\"\\exceeded/\u{e9}", OmahaStatus::Error("error-\"quota\"\\exceeded/\u{e9}".into())),
         0 => ("ok", OmahaStatus::Ok),
         1 => ("noupdate", OmahaStatus::NoUpdate),
         2 => ("restricted", OmahaStatus::Restricted),
@@ -328,7 +401,12 @@ fn run_fidelity(ctx: &RunCtx) -> RunOut {
         resp.insert("unknown_top".into(), json!([1, 2]));
     }
     let doc = json!({ "response": Value::Object(resp) });
-    let mut bytes = serde_json::to_vec(&doc).unwrap();
+    // spelling of the same document: compact, re-spelled string literals (escapes), or pretty-printed
+    let spelling = choose("spelling", 6);
+    let mut bytes = if spelling == 5 { serde_json::to_vec_pretty(&doc).unwrap() } else { respell(&serde_json::to_vec(&doc).unwrap(), spelling) };
+    if serde_json::from_slice::<Value>(&bytes).ok().as_ref() != Some(&doc) {
+        crate::chooser::machinery(format!("respell changed the meaning of the document (mode {spelling})"));
+    }
     let prefixed = choose("xssi", 2) == 1;
     if prefixed {
         let mut b = b")]}'\n".to_vec();
@@ -831,7 +909,7 @@ fn parts(tier: Tier) -> Vec<PartDef> {
         PartDef::new(
             "fidelity",
             Cfg::new("C16/fidelity").dev(tier.pick(4, 5)),
-            json!({"generator": "independent; optional fields absent/empty/value, apps 0-2, urls 0-2, actions 0-2, packages 0-2, 6 status strings, 5 size values, 5 daystart shapes, 4 extension payloads per extension point, XSSI prefix",
+            json!({"spellings": ["compact", "all string values as \\uXXXX escapes", "keys too", "first character of each value", "escaped solidus", "pretty-printed"], "generator": "independent; optional fields absent/empty/value/value needing escapes, apps 0-2, urls 0-2, actions 0-2, packages 0-2, 6 status strings, 5 size values, 5 daystart shapes, 4 extension payloads per extension point, XSSI prefix",
                    "exploration": format!("all documents within {} departures from a typical document (one app with update check, one url, manifest with one action and one package)", tier.pick(3, 4))}),
             run_fidelity,
         ),
